@@ -25,7 +25,8 @@ RULE = ("for each initial content (fixed set + seeded random compositions of the
         "call, the file then replaced by other content, a later run must produce exactly what it produces without that history); and two "
         "overlapping runs (the first held by a tracer delay on entry to its rename, the second killed at write-type calls or running to its end); and fault "
         "pairs: the rename failing with EBUSY/EXDEV plus a kill / ENOSPC / EIO at every call the command makes after that. non-trivial = crash/fault point at or after the first call that "
-        "touches the preload file or its temporary sibling; distinct by (content, op, call index, fault)")
+        "touches the preload file or its temporary sibling; every second (content, op) is run 'aged': file last modified two days ago, in a directory where an "
+        "unfaulted enable/disable/enable ran before; distinct by (content, op, call index, fault)")
 
 FIXED = [None, b"", preload.PH + b"\n", b"/usr/lib/a.so\n", b"/usr/lib/a.so\n" + preload.PH + b"\n/usr/lib/b.so\n",
          b"/usr/lib/a.so", b"# c libsnoopy.so\n/usr/lib/a.so\n" + preload.PH, preload.PH + b" /usr/lib/b.so\n/lib/c.so\n",
@@ -55,9 +56,22 @@ def strace(ctl, action, inject=None, out=None):
     return p.returncode
 
 
-def dry_run(ctl, content, action):
+def prepare(ctl, old, aged):
+    """aged: the directory has a history (an unfaulted enable and disable ran there before, whatever they left behind is still there)
+    and the file was last modified two days ago -- as with a real /etc/ld.so.preload; otherwise a fresh directory and file"""
+    if not aged:
+        ctl.put(old)
+        return
+    ctl.put(b"/usr/lib/libhistory.so\n")
+    ctl.run("enable")
+    ctl.run("disable")
+    ctl.run("enable")
+    ctl.put(old, keep_stray=True, old_mtime=True)
+
+
+def dry_run(ctl, content, action, aged=False):
     old = ctl.subst(content)
-    ctl.put(old)
+    prepare(ctl, old, aged)
     log = os.path.join(ctl.dir, "trace.log")
     strace(ctl, action, out=log)
     new = ctl.get()
@@ -98,15 +112,16 @@ def trace_with(ctl, content, action, inject):
     return calls
 
 
-def one_run(ctl, content, action, inject, old, new):
+def one_run(ctl, content, action, inject, old, new, aged=False):
     """Re-run with a fault; raise Failure when the file is neither old nor new afterwards."""
-    ctl.put(old)
+    prepare(ctl, old, aged)
     rc = strace(ctl, action, inject=inject)
     one_run.last_rc = rc
     after = ctl.get()
     ok = after == old or after == new or (old is None and after is None)
     if not ok:
-        raise Failure("preload file is neither the complete old nor the complete new content after `%s` with %s" % (action, inject),
+        raise Failure("preload file is neither the complete old nor the complete new content after `%s` with %s%s" % (
+                      action, inject, " (file two days old, earlier runs in the directory)" if aged else ""),
                       {"after": after, "stray": ctl.stray_files()}, {"old": old, "new": new}, key="partial")
 
 
@@ -217,16 +232,17 @@ def worker(args):
     ctl = preload.Ctl(_W["build"], os.path.join(ctx.run.dir, "ctl-%d" % idx))
     local = Counters(ctx.known, idx)
     fails = []
-    for content, action in jobs:
-        old, new, calls, first_touch = dry_run(ctl, content, action)
+    for jn, (content, action) in enumerate(jobs):
+        aged = (jn + idx) % 2 == 1
+        old, new, calls, first_touch = dry_run(ctl, content, action, aged)
         # the dry run itself must agree with the functional model (sanity of the harness; C18/C19 judge this)
         for inject, nontriv, label in plans_for(calls, first_touch, ctx.quick):
-            case = {"content": content, "action": action, "inject": inject}
-            local.count((content, action, label) if nontriv else None,
-                        [action, label[0], "call:" + label[2]] + (["window"] if nontriv else ["startup"]),
+            case = {"content": content, "action": action, "inject": inject, "aged": aged}
+            local.count((content, action, label, aged) if nontriv else None,
+                        [action, label[0], "call:" + label[2]] + (["window"] if nontriv else ["startup"]) + (["aged-file+directory-with-history"] if aged else []),
                         sample={"content": content, "action": action, "inject": inject, "call": calls[label[1]][2]})
             try:
-                one_run(ctl, content, action, inject, old, new)
+                one_run(ctl, content, action, inject, old, new, aged)
                 if label[0] == "kill" and one_run.last_rc in (137, -9):
                     local.extra["runs_where_the_process_was_killed"] = local.extra.get("runs_where_the_process_was_killed", 0) + 1
                 if label[0] != "kill" and one_run.last_rc != 0:
@@ -235,7 +251,7 @@ def worker(args):
                 if local.is_known(f.key):
                     local.known_hit(f.key, f.what)
                     continue
-                ok, last = confirm(lambda c: one_run(ctl, c["content"], c["action"], c["inject"], old, new), case)
+                ok, last = confirm(lambda c: one_run(ctl, c["content"], c["action"], c["inject"], old, new, c.get("aged", False)), case)
                 if ok and not fails:
                     case["syscalls"] = len(calls)
                     fails.append({"case": case, "what": last.what, "observed": last.observed, "expected": last.expected})
@@ -354,7 +370,7 @@ def main():
     if ctx.replay:
         case, _ = load_replay(ctx.replay)
         ctl = preload.Ctl(b, os.path.join(ctx.run.dir, "ctl-r"))
-        old, new, calls, ft = dry_run(ctl, case["content"], case["action"])
+        old, new, calls, ft = dry_run(ctl, case["content"], case["action"], case.get("aged", False))
         ctx.count("replay-1", ["replay"], sample=case)
         ctx.nontrivial.add("replay-2")
         try:
@@ -367,7 +383,7 @@ def main():
             elif "short_limit" in case:
                 short_write_run(ctl, case["content"], case["action"], case["short_limit"], old, new)
             else:
-                one_run(ctl, case["content"], case["action"], case["inject"], old, new)
+                one_run(ctl, case["content"], case["action"], case["inject"], old, new, case.get("aged", False))
             print("replay: property holds for this case")
         except Failure as f:
             ctx.violation(case, f.observed, f.expected, f.what)
